@@ -84,7 +84,7 @@ def gen_plan(prop, seed, tier):
         if profile == "fvec" and rng.random() < 0.4:
             layout = "elevated-line"
         noctrl = rng.random() < 0.10
-        spec = gen_spec(rng, cls, 2, rational or noctrl)
+        spec = gen_spec(rng, cls, 2, (rational and not noctrl) or (noctrl and rng.random() < 0.6))   # bare or weights-only when noctrl
         if noctrl and "weights" in spec and rng.random() < 0.7:
             # a curve that carries weights only, with strongly varying weights (a lossy refit may then change sign)
             spec["weights"] = [M.enc(Fraction(rng.choice([1, 1, 2, 5, 8, 1, 3]), rng.choice([1, 1, 3, 4, 5, 20]))) for _ in spec["weights"]]
